@@ -46,14 +46,20 @@ def _route_of(trace, abort_cmd):
             r.append('COSdoAbortReq')
         elif name in HANDLERS:
             r.append(name)
+        elif name is not None and _MODEL[0] is not None and _MODEL[0].is_new_helper(name):
+            continue          # a stage extracted from the dispatcher: the evaluator folded through it, its calls follow
         else:
             r.append('?' + str(name))
     return tuple(r)
 
 
+_MODEL = [None]
+
+
 # ------------------------------------------------------------------ RF1 (a): dispatch table
 def dispatch_table(ctx, props):
     m = ctx.m
+    _MODEL[0] = m
     m.need('COSdoResponse', 'COSdoAbortReq', 'COSdoAbort', 'COSdoGetObject')
     pe = PEval(m, 'COSdoResponse')
     abort_cmd = spec.ABORT['CMD']
@@ -458,6 +464,12 @@ def _per_request_refresh(ctx, props, fname, rectag, fields, rule):
     pids = set(p[3] for p in fn.params)
     sel = []
     stores = dict((f[0], set()) for f in fields)
+    ret_refs = set()
+    for node in g.nodes:
+        if node.kind == 'ret' and node.x is not None and node.x.kids:
+            rx = strip(node.x.kids[0])
+            if rx is not None and rx.k == 'ref' and rx.refk == 'VarDecl':
+                ret_refs.add(rx.ref)
     for node in g.nodes:
         if node.x is None or node.id not in g.reachable:
             continue
@@ -474,7 +486,12 @@ def _per_request_refresh(ctx, props, fname, rectag, fields, rule):
                         stores[nm].add(node.id)
             if rhs is not None and p is not None and len(p) == 1:
                 r = strip(rhs)
-                if r.k == 'un' and r.op == '&' and (n.cty or n.ty or '').find(rectag) >= 0:
+                tgt_ref = p[0][1]
+                is_rec_ptr = (n.cty or n.ty or '').find(rectag) >= 0
+                # the SELECTION is the store to the variable the function returns (`result = &srv[n]`, or `result = cur` with
+                # `cur` a local alias of the element) - an alias taken for convenience before the identifier test is not one
+                if is_rec_ptr and (not ret_refs or tgt_ref in ret_refs) and const_eval(rhs, m) != 0 and \
+                        ((r.k == 'un' and r.op == '&') or (r.k == 'ref' and r.refk == 'VarDecl' and ret_refs)):
                     sel.append(node.id)
     ctx.inst(rule + '.select-sites.' + fname, len(sel))
     ctx.require_min(props, rule, len(sel), 1, 'selection sites in ' + fname)
@@ -592,7 +609,7 @@ def dispatcher_state_reset(ctx, props):
     for f in ('COSdoResponse', 'COSdoCheck'):
         g = m.cfg(f)
         for node in g.nodes:
-            if node.kind == 'br' and node.id in g.reachable:
+            if node.kind in ('br', 'sw') and node.x is not None and node.id in g.reachable:
                 for n in walk(node.x):
                     if n.k == 'mem' and n.field[0] in ('CO_SDO', 'CO_SDO_BLK', 'CO_SDO_SEG', 'CO_SDO_BUF') \
                             and n.field not in (('CO_SDO', 'RxId'), ('CO_SDO', 'Frm'), ('CO_SDO', 'Blk'),
